@@ -1,7 +1,7 @@
 /-
   C14 — Object graphs round-trip and reference extraction is exact.
 
-  Property theorems only (helper lemmas: `Proofs/RefsTree|RefsWriter|RefsCommit|RefsLoad|RefsRound`).
+  Property theorems only (helper lemmas: `Proofs/RefsTree|RefsWriter|RefsCommit|RefsLoad|RefsRound|RefsFresh`).
   Model: `ZodbModel/Refs.lean` — `ObjectWriter.persistent_id/serialize`, the writer stack loop of
   `Connection._store_objects`, the loop of `Connection._commit`, `referencesf`/`get_refs` over the
   reference tokens, and `ObjectReader._persistent_load` with the per-connection caches.  The pickle
@@ -15,7 +15,7 @@
                                 Stored object (least such set)
     SameTarget env objs sf ls   a loaded leaf stands for what the in-memory leaf referred to
 -/
-import Proofs.RefsRound
+import Proofs.RefsFresh
 namespace Props.C14
 open ZodbModel ZodbModel.Refs ZodbModel.Refs.Tree Proofs.Refs
 
@@ -130,6 +130,57 @@ theorem roundtrip_graph (env : Env) (objs : List Obj) (p : Pending) (out : List 
       Tree.Rel (SameTarget env objs sf (lrun lenv ops)) o.state t :=
   roundtrip_session hc lenv hstore ops
 
+/-- Distinct stored objects have distinct oids, provided `new_oid` does what C20 says (`FreshOK`:
+    its answers are pairwise different and not in use by an object of this connection). -/
+theorem stored_oids_distinct (env : Env) (objs : List Obj) (p : Pending) (out : List (H × Record))
+    (sf : WState) (hf : FreshOK env objs) (hc : commit env objs p = .ok (out, sf)) :
+    ∀ hr1 ∈ out, ∀ hr2 ∈ out, ∀ oid, finalOid objs sf hr1.1 = some oid →
+      finalOid objs sf hr2.1 = some oid → hr1.1 = hr2.1 := commit_oids_distinct hf hc
+
+/-- Round trip without a hypothesis on the database: take ANY database `base`, add the records of
+    the commit under the oids of their objects (`putRecords`), load anything in any order. -/
+theorem roundtrip_graph_after_commit (env : Env) (objs : List Obj) (p : Pending)
+    (out : List (H × Record)) (sf : WState) (hf : FreshOK env objs) (hnd : p.registered.Nodup)
+    (hc : commit env objs p = .ok (out, sf)) (base : Store) (dbs : List Db) (missing : List Cls)
+    (ops : List LOp) :
+    let lenv : LEnv := { store := putRecords env.db objs sf out base, dbs := dbs, missing := missing }
+    ∀ hr ∈ out, ∀ (o : Obj) (oid : Oid) (hl : Nat) (x : LObj) (t : Tree LLeaf),
+      objs[hr.1]? = some o → finalOid objs sf hr.1 = some oid →
+      (lrun lenv ops).heap[hl]? = some x → x.db = env.db → x.oid = oid → x.state = some t →
+      Tree.Rel (SameTarget env objs sf (lrun lenv ops)) o.state t :=
+  roundtrip_session hc _ (commit_putRecords hf hnd hc base) ops
+
+/-- Classes.  If the references of the database cache the right classes (`ClsOK`: what holds as
+    long as no object changes its class — the limitation serialize.py documents), a loaded object
+    has the class of the stored object, and is a broken-object placeholder exactly when that
+    class cannot be imported. -/
+theorem roundtrip_class (env : Env) (objs : List Obj) (p : Pending) (out : List (H × Record))
+    (sf : WState) (hc : commit env objs p = .ok (out, sf)) (lenv : LEnv)
+    (hstore : ∀ hr ∈ out, ∀ oid, finalOid objs sf hr.1 = some oid →
+      lookup (env.db, oid) lenv.store = some hr.2)
+    (hcls : ClsOK lenv.store) (ops : List LOp) :
+    ∀ hr ∈ out, ∀ (o : Obj) (oid : Oid) (hl : Nat) (x : LObj),
+      objs[hr.1]? = some o → finalOid objs sf hr.1 = some oid →
+      (lrun lenv ops).heap[hl]? = some x → x.db = env.db → x.oid = oid →
+      x.cls = o.cls ∧ x.broken = lenv.missing.contains o.cls := by
+  intro hr hm o oid hl x ho hoid ex hdb hxo
+  obtain ⟨o', ho', hrec⟩ := commit_records hc hr hm
+  rw [ho] at ho'; cases ho'
+  have hl' := hstore hr hm oid hoid
+  rw [← hdb, ← hxo] at hl'
+  have := lrun_cls lenv hcls ops hl x hr.2 ex hl'
+  rw [hrec.1] at this
+  exact this
+
+/-- the references a commit writes cache the class of the object they refer to -/
+theorem written_refs_cache_target_class (env : Env) (objs : List Obj) (p : Pending)
+    (out : List (H × Record)) (sf : WState) (hc : commit env objs p = .ok (out, sf)) :
+    ∀ hr ∈ out, ∃ o, objs[hr.1]? = some o ∧ hr.2.cls = o.cls ∧
+      ∀ l ∈ o.leaves, ∃ tk ∈ hr.2.tokens, TokFor env objs sf l tk := by
+  intro hr hm
+  obtain ⟨o, ho, hrec⟩ := commit_records hc hr hm
+  exact ⟨o, ho, hrec.1, fun l hl => forall2_get (recFor_tokens hrec) hl⟩
+
 /-! ## non-vacuity: a concrete graph with sharing, a cycle, a self-made oid-less chain, a class with
     constructor arguments, a weak reference and a cross-database reference -/
 
@@ -184,5 +235,32 @@ example : (lrun exLenv exOps).heap.map (fun x => (x.db, x.oid, x.cls, x.state.is
     [(0, [0], 1, true), (0, [10], 3, true), (0, [11], 4, true), (1, [9], 3, false)] := by decide
 example : ((lrun exLenv exOps).heap[1]?.bind (·.state)).map (·.leaves) =
     some [.obj 2, .wref none [11], .obj 0, .obj 3, .wref (some 1) [9]] := by decide
+
+/-- the example meets the hypotheses of `stored_oids_distinct` / `roundtrip_graph_after_commit` -/
+example : FreshOK exEnv exObjs := by
+  refine ⟨fun i j h => ?_, fun k h o oid ho hj hoid => ?_, fun h1 h2 o1 o2 oid e1 e2 j1 j2 a1 a2 => ?_⟩
+  · simpa [exEnv] using h
+  · have : h < 5 := (List.getElem?_eq_some_iff.1 ho).1
+    have hk : exEnv.fresh k = [k + 10] := rfl
+    rw [hk]
+    intro he; subst he
+    match h, this with
+    | 0, _ => simp [exObjs] at ho; subst ho; simp at hoid
+    | 1, _ => simp [exObjs] at ho; subst ho; simp at hoid
+    | 2, _ => simp [exObjs] at ho; subst ho; simp at hoid
+    | 3, _ => simp [exObjs] at ho; subst ho; simp [exEnv, Env.own] at hj
+    | 4, _ => simp [exObjs] at ho; subst ho; simp at hoid
+  · have l1 : h1 < 5 := (List.getElem?_eq_some_iff.1 e1).1
+    have l2 : h2 < 5 := (List.getElem?_eq_some_iff.1 e2).1
+    match h1, l1, h2, l2 with
+    | 0, _, 0, _ => rfl
+    | 0, _, 1, _ => simp [exObjs] at e2; subst e2; simp at a2
+    | 0, _, 2, _ => simp [exObjs] at e2; subst e2; simp at a2
+    | 0, _, 3, _ => simp [exObjs] at e2; subst e2; simp [exEnv, Env.own] at j2
+    | 0, _, 4, _ => simp [exObjs] at e2; subst e2; simp at a2
+    | 1, _, _, _ => simp [exObjs] at e1; subst e1; simp at a1
+    | 2, _, _, _ => simp [exObjs] at e1; subst e1; simp at a1
+    | 3, _, _, _ => simp [exObjs] at e1; subst e1; simp [exEnv, Env.own] at j1
+    | 4, _, _, _ => simp [exObjs] at e1; subst e1; simp at a1
 
 end Props.C14
